@@ -141,6 +141,7 @@ def descOf (o : ObjOps) : SymList.Desc :=
     symbols := (o.syms.filter (!·.dyn)).map (·.toObjSym)
     dynSymbols := dyn.map (·.toObjSym)
     exports := if defs.all (·.name.isSome) then some (defs.map fun s => (s.value, s.name.getD [])) else none
+    -- FDE-REBASE: elf.rs:508 pushes `fde.initial_address() as u32` (an SVMA, not rebased to the image base)
     funcStarts := if o.fdes.isEmpty then none else some (o.fdes.map fun f => f.1 % U32)
     entry := o.entry
     textSections := o.secs.filterMap fun s => if s.1 = "t" then some (s.2.1, s.2.2.1) else none
@@ -359,6 +360,7 @@ def objCandidates (o : ObjOps) : List (Nat × Option Name) :=
   let defs := o.syms.filter fun s => s.dyn && s.isDefinition
   let exports : List (Nat × Option Name) :=
     if defs.all (·.name.isSome) then defs.map fun s => ((s.value - base) % U32, s.name) else []
+  -- FDE-REBASE: the placeholders sit where the code puts them (SVMA as u32), see notes/C05.md finding 1
   let starts : List (Nat × Option Name) := o.fdes.map fun f => (f.1 % U32, some (SymList.synthName (f.1 % U32)))
   let entry : List (Nat × Option Name) :=
     if base ≤ o.entry then [((o.entry - base) % U32, some SymList.entryPointName)] else []
@@ -378,6 +380,7 @@ def objKnownEnds (o : ObjOps) : List Nat :=
   let endOf (a size : Nat) : Option Nat := if a + size < U64 then relOf base (a + size) else none
   (o.syms.filter fun s => !s.dyn && o.funcSym s && s.size ≠ 0 && s.name.isSome).filterMap (fun s => endOf s.value s.size)
   ++ (o.secs.filter fun s => s.1 = "t").filterMap (fun s => endOf s.2.1 s.2.2.1)
+  -- FDE-REBASE: only files with base 0, where SVMA and relative address coincide
   ++ (if base = 0 then o.fdes.filterMap (fun f => if f.1 + f.2 < U32 then some (f.1 + f.2) else none) else [])
 
 def jitExpectedEnum (ls : List String) : List (Nat × Name) :=
